@@ -158,4 +158,65 @@ theorem checkGlyphKeyed_all (font : Font) (patches : List (PatchInfo × Bytes))
           · simp only [ne_eq, h2, not_false_eq_true, if_true] at h; cases h
       · simp only [ne_eq, h1, not_false_eq_true, if_true] at h; cases h
 
+/-! ## decoding -/
+
+theorem decodeAll_ok (dec : Decoder) (hs : List GKHeader) (i : Nat) (raws : List Bytes)
+    (h : decodeAll dec hs i = .ok raws) :
+    raws.length = hs.length ∧
+    ∀ k (hk : k < hs.length), hs[k].format = TAG_ifgk ∧
+      ∃ raw, dec (i + k) hs[k].stream none hs[k].maxLen = .ok raw ∧ raws[k]? = some raw := by
+  induction hs generalizing i raws with
+  | nil => simp only [decodeAll, Except.ok.injEq] at h; subst h; simp
+  | cons x xs ih =>
+    simp only [decodeAll] at h
+    split at h
+    · cases h
+    · rename_i hf
+      split at h
+      · cases h
+      · rename_i raw hr
+        split at h
+        · cases h
+        · rename_i more hm
+          simp only [Except.ok.injEq] at h
+          subst h
+          obtain ⟨i1, i2⟩ := ih (i + 1) more hm
+          refine ⟨by simp [i1], ?_⟩
+          intro k hk
+          cases k with
+          | zero => exact ⟨by simpa using hf, raw, by simpa using hr, by simp⟩
+          | succ k =>
+            obtain ⟨j1, raw', j2, j3⟩ := i2 k (by simpa using hk)
+            refine ⟨by simpa using j1, raw', ?_, by simpa using j3⟩
+            rw [show i + (k + 1) = i + 1 + k by omega]; simpa using j2
+
+/-! ## offset width -/
+
+theorem chooseOffsetType_spec (a : OffsetArray) (total : Nat) (t : OffsetType)
+    (h : chooseOffsetType a total = .ok t) :
+    total ≤ t.maxRepresentable ∧
+    (total ≤ a.offsetType.maxRepresentable → t = a.offsetType) ∧
+    (a.offsetType.maxRepresentable < total →
+      t ∈ a.available ∧ ∃ pre post, a.available = pre ++ t :: post ∧ ∀ c ∈ pre, c.maxRepresentable < total) := by
+  unfold chooseOffsetType at h
+  by_cases hgt : total > a.offsetType.maxRepresentable
+  · simp only [hgt, if_true] at h
+    cases hf : a.available.find? (fun c => decide (c.maxRepresentable ≥ total)) with
+    | none => rw [hf] at h; cases h
+    | some c =>
+      rw [hf] at h
+      simp only [Except.ok.injEq] at h
+      subst h
+      have h1 := List.find?_some hf
+      simp only [decide_eq_true_eq] at h1
+      obtain ⟨pre, post, hsplit, hpre⟩ := List.find?_eq_some_iff_append.mp hf |>.2
+      refine ⟨h1, fun hle => by omega, fun _ => ⟨List.mem_of_find?_eq_some hf, pre, post, hsplit, ?_⟩⟩
+      intro x hx
+      have := hpre x hx
+      simp only [decide_eq_true_eq, Bool.not_eq_true', decide_eq_false_iff_not] at this
+      omega
+  · simp only [hgt, if_false, Except.ok.injEq] at h
+    subst h
+    exact ⟨by omega, fun _ => rfl, fun hlt => by omega⟩
+
 end FontVerif.Ift
